@@ -220,6 +220,7 @@ fn explore(cx: &mut Ctx, rng: &mut Rng) {
         misplaced_construct_cases(thorough, &mut sink);
         format_width_cases(thorough, &mut sink);
         packed_args_cases(thorough, &mut sink);
+        string_escape_cases(&mut sink);
         container_reentrancy_cases(&sweep.eps, thorough, &mut sink);
         iterator_invalidation_cases(thorough, &mut sink);
     }
@@ -257,6 +258,7 @@ fn explore(cx: &mut Ctx, rng: &mut Rng) {
         misplaced_construct_cases(thorough, &mut sink);
         format_width_cases(thorough, &mut sink);
         packed_args_cases(thorough, &mut sink);
+        string_escape_cases(&mut sink);
         container_reentrancy_cases(&sweep.eps, thorough, &mut sink);
         iterator_invalidation_cases(thorough, &mut sink);
     }
